@@ -41,11 +41,78 @@ def run(chk, repo):
     from .common_rules import stateless_constructs
     chk.attempt(stateless_constructs, chk, repo, "C05-F8")
     chk.attempt(w4, chk, op)
+    chk.attempt(writer_pure, chk, repo)
+    chk.attempt(writer_pure_structural, chk, op, covered_by="writer_pure", rules=("C10-W8",))
     chk.attempt(g3_threading, chk, op, "C10-G3")
     from .c07 import naming
     chk.rule("C07-N", "one cache file per image: option writer, reader and CLI agree on <image file name>.index (a cache created by one image is never served for another)", 3)
     chk.attempt(naming, chk, op)
     chk.count("functions", len(op.reach))
+
+
+def writer_pure(chk, repo):
+    """C10-W7: encoding the index leaves the tree untouched (open_image returns the very object it hands to create_cache)"""
+    from .codec_rules import codec_rules
+    codec_rules(chk, repo, "C10-W7", ("input-untouched",), "writing the cache does not change the tree: caching.encode evaluated on model hierarchies leaves every list, dict and object it is given as it was "
+                "(an open with create_cache=True returns the same tree as an open without)")
+
+
+def writer_pure_structural(chk, op):
+    """C10-W8: no function reachable from caching.encode stores into, or calls a mutating method on, something reachable from its parameters"""
+    repo = op.repo
+    chk.rule("C10-W8", "no function of the cache writer (reachable from caching.encode) stores into its arguments", 4)
+    root = "ceos_alos2.sar_image.caching:encode"
+    if root not in op.g.funcs:
+        raise AnalysisError(f"anchor vanished: {root}")
+    reach = set(op.g.reachable([root]))
+    for k in sorted(reach):
+        fi = op.g.funcs[k]
+        if not fi.module.name.startswith("ceos_alos2.sar_image.caching"):
+            continue
+        alias = _param_aliases(fi)
+        bad = [short(node, 60) for kind, rootname, target, node in effects.stores(repo, fi) if rootname in alias and kind != "global_store"
+               and not (kind in ("attr_store", "item_store") and isinstance(target, ast.Name))]
+        chk.require(not bad, "C10-W8", op.where(fi), "does not store into what it is given",
+                    f"{bad[:2]} changes an object reachable from the argument(s) {sorted(alias & set(fi.params))[:3]} in place: the tree handed to create_cache is the tree open_image returns, "
+                    f"so an open that writes the cache returns something else than one that does not", key=f"{fi.key}:mutates-argument")
+
+
+def _param_aliases(fi):
+    """names that may refer to (a part of) an argument: parameters never rebound to a fresh object, and names bound to access paths / iterations over them"""
+    fresh_calls = {"list", "dict", "tuple", "set", "sorted", "valmap", "keymap", "itemmap", "map", "filter", "copy", "deepcopy", "merge", "str", "int", "float", "len", "zip", "enumerate", "range"}
+
+    def is_fresh(e):
+        if isinstance(e, (ast.Dict, ast.List, ast.Tuple, ast.Set, ast.ListComp, ast.DictComp, ast.SetComp, ast.GeneratorExp, ast.Constant, ast.JoinedStr, ast.BinOp, ast.Compare, ast.BoolOp, ast.UnaryOp)):
+            return True
+        if isinstance(e, ast.Call):
+            name = e.func.attr if isinstance(e.func, ast.Attribute) else getattr(e.func, "id", None)
+            if name in fresh_calls or name in ("tolist", "astype", "asarray", "array"):
+                return name not in ("asarray",)  # np.asarray may return its argument
+            return True  # another function's result: judged in that function
+        return False
+    assigns = {}
+    for n in fi.own_nodes(include_lambdas=False):
+        if isinstance(n, ast.Assign):
+            for t in n.targets:
+                if isinstance(t, ast.Name):
+                    assigns.setdefault(t.id, []).append(n.value)
+        elif isinstance(n, (ast.For, ast.comprehension)) and isinstance(n.target, ast.Name):
+            assigns.setdefault(n.target.id, []).append(n.iter)
+    alias = {p_ for p_ in fi.params if not (assigns.get(p_) and all(is_fresh(v) for v in assigns[p_]))}
+    changed = True
+    while changed:
+        changed = False
+        for name, values in assigns.items():
+            if name in alias:
+                continue
+            for v in values:
+                r = v
+                while isinstance(r, (ast.Attribute, ast.Subscript)) or (isinstance(r, ast.Call) and isinstance(r.func, ast.Attribute) and r.func.attr in ("values", "items", "get", "asarray")):
+                    r = r.value if not isinstance(r, ast.Call) else (r.func.value if r.func.attr != "asarray" else (r.args[0] if r.args else r.func.value))
+                if isinstance(r, ast.Name) and r.id in alias and not is_fresh(v):
+                    alias.add(name)
+                    changed = True
+    return alias
 
 
 def w1(chk, op):
